@@ -439,10 +439,16 @@ def main(argv):
     known_hits = 0
     sample_n = 0
     if ok_h:
-        rc, gen_out = sh([hbin, 'gen', str(seed), tier], timeout=1800)
-        generated = [l for l in gen_out.split('\n') if l]
+        # thorough tier: several generator seeds (the first one is VERIF_SEED itself), duplicates dropped
+        gen_seeds = [seed] + ([seed * 7919 + k for k in range(1, prop.get('thorough_seeds', 6))] if tier == 'thorough' else [])
+        generated, seen_lines = [], set()
+        for gs in gen_seeds:
+            rc, gen_out = sh([hbin, 'gen', str(gs), tier], timeout=1800)
+            for l in gen_out.split('\n'):
+                if l and l not in seen_lines:
+                    seen_lines.add(l); generated.append(l)
         cases = fixed_cases + corpus + generated
-        stats = {'corpus': len(corpus), 'fixed_finding_cases': len(fixed_cases), 'generated': len(generated)}
+        stats = {'corpus': len(corpus), 'fixed_finding_cases': len(fixed_cases), 'generated': len(generated), 'generator_seeds': gen_seeds}
         env = dict(ENV); env.update(prop.get('run_env', {}))
         impl_lines = run_sharded([hbin, 'run'], cases, shards=prop.get('impl_shards', 1), timeout=prop.get('run_timeout', 3000), env=env)
         if drv:
